@@ -346,7 +346,16 @@ def wrappers(ctx, m):
 
 # ---------------------------------------------------------------------------------- dirty copies written back
 def writeback(ctx, m):
-    for api in ("place_order", "modify_order"):
+    # place_order / modify_order, and any further public operation of the book that works on a local copy of a table entry
+    # (e.g. an un-crossing pass added to enable_trading)
+    apis = ["place_order", "modify_order"]
+    for f_ in m.book_pub_fns():
+        if f_.name in apis or not (f_.params and f_.params[0] == "self"):
+            continue
+        q_ = m.q(f_)
+        if any(q_.body.local_ty(l).endswith("OrderEntry") and not q_.body.local_ty(l).startswith("&") and l in q_.ev.memory_locals() for l in q_.ev.def_sites()):
+            apis.append(f_.name)
+    for api in apis:
         f = m.book_fn(api)
         q = m.q(f)
         copies = []
